@@ -337,4 +337,136 @@ theorem hs_turn_x (hl : H.Lawful) (kl : List Keylog.Key) (L : SealLaws Pc) (dcid
 
 
 end TurnX
+section Loops
+variable (maskFn : Dissect.MaskFn) (H : Crypto.Prims) (Pc : Cipher.Prims)
+
+/-- `hs_loop_more` with the Early keys -/
+theorem hs_loop_early (hl : H.Lawful) (kl : List Keylog.Key) (L : SealLaws Pc) (dcid0 cr csel ch sh ca sa e : Bytes)
+    (sel : SuiteSel) (hsel : selectSuite csel = some sel) (hkl : KeylogHas kl cr ch sh ca sa (some e))
+    (srv : Bool) (ts : Nat) (guessed : Bytes) (qs : List PkH) (hdir : ∀ q ∈ qs, q.x.srv = srv ∧ q.x.ts = ts)
+    (rest : List CryptoIn) (more : Bytes) (t : Trk) (s : St Tls)
+    (hst : HsSt H dcid0 sel ch sh ca sa t.keyed s t.tc t.ts t.cc t.sc t.core)
+    (hok : HsPks maskFn H Pc L dcid0 sel sh ch t qs) (htr : PTrace cr csel t.core (insOf qs ++ rest))
+    (ecs : Option SuiteSel) (hinv : EInv H e ecs s) :
+    ∃ s', HsSt H dcid0 sel ch sh ca sa (t.run qs).keyed s' (t.run qs).tc (t.run qs).ts (t.run qs).cc (t.run qs).sc
+        (t.run qs).core ∧
+      PTrace cr csel (t.run qs).core rest ∧ EInv H e (ecsFold t.core (insOf qs) ecs) s' ∧
+      (Dissect.dissectLoop maskFn (fun x : LoopSt => envOf x.1) (handleTurn (params H Pc kl)) srv guessed ts
+        (s, none) ((qs.map (pkWire H Pc L dcid0 sel sh ch)).flatten ++ more)).1 =
+      (Dissect.dissectLoop maskFn (fun x : LoopSt => envOf x.1) (handleTurn (params H Pc kl)) srv guessed ts
+        (s', none) more).1 := by
+  induction qs generalizing t s ecs with
+  | nil => exact ⟨s, hst, htr, hinv, by simp⟩
+  | cons q qs ih =>
+    obtain ⟨hq, hqs⟩ := hok
+    obtain ⟨hsv, hts⟩ := hdir q (List.mem_cons_self ..)
+    have htr' : PTrace cr csel t.core (cryptoIns q.x ++ (insOf qs ++ rest)) := by
+      simpa [insOf, List.flatMap_cons, List.append_assoc] using htr
+    obtain ⟨a1, a2, a3⟩ := hs_turn_x maskFn H Pc hl kl L dcid0 cr csel ch sh ca sa (some e) sel hsel hkl t q hq _ s hst htr'
+      guessed ((qs.map (pkWire H Pc L dcid0 sel sh ch)).flatten ++ more)
+    have hlv : q.x.level = .initial ∨ (q.x.level = .handshake ∧ t.keyed = true) := by
+      rcases hq.shape.level with h | h
+      · exact Or.inl h
+      · exact Or.inr ⟨h, hq.keys h⟩
+    have a4 := hs_packet_early H Pc hl kl L dcid0 cr csel ch sh ca sa e sel hsel hkl t.keyed q.x hlv hq.late hq.frames hq.wf
+      (insOf qs ++ rest) s t.tc t.ts t.cc t.sc t.core hst hq.pn htr' ecs hinv
+    have a3' : (Dissect.dissectLoop maskFn (fun x : LoopSt => envOf x.1) (handleTurn (params H Pc kl)) srv guessed ts
+        (s, none) (pkWire H Pc L dcid0 sel sh ch q ++ ((qs.map (pkWire H Pc L dcid0 sel sh ch)).flatten ++ more))).1 =
+      (Dissect.dissectLoop maskFn (fun x : LoopSt => envOf x.1) (handleTurn (params H Pc kl)) srv guessed ts
+        ((stepPkt (params H Pc kl) s (emit L.aeadSeal (lvlDec H dcid0 sel sh ch q.x.level).alg
+          (lvlKey H dcid0 sel sh ch q.x.level q.x.srv) q.x)).st, none) ((qs.map (pkWire H Pc L dcid0 sel sh ch)).flatten ++ more)).1 := by
+      rw [← hsv, ← hts]; exact a3
+    obtain ⟨s2, b1, b2, b3, b4⟩ := ih (fun q' hq' => hdir q' (List.mem_cons_of_mem _ hq')) (t.step q.x) _ a1 hqs a2 _ a4
+    refine ⟨s2, b1, b2, ?_, ?_⟩
+    · have : insOf (q :: qs) = cryptoIns q.x ++ insOf qs := by simp [insOf]
+      rw [this, ecsFold_append]
+      exact b3
+    · simp only [List.map_cons, List.flatten_cons, List.append_assoc]
+      rw [a3', b4]
+
+
+/-- the handshake invariant (on the state without its output buffer) after a 0-RTT packet was handled -/
+theorem hsSt_after_zr (dcid0 : Bytes) (sel : SuiteSel) (ch sh ca sa : Bytes) (t : Trk) (s : St Tls)
+    (hst : HsSt H dcid0 sel ch sh ca sa t.keyed (noOut s) t.tc t.ts t.cc t.sc t.core) (x : SPkt) (p : Pkt)
+    (hsrv : p.isServer = false) :
+    HsSt H dcid0 sel ch sh ca sa (t.zr x).keyed
+      (noOut (afterFrames (pnStore s false .app (max s.pnClient.app x.pn)) p ((normalize x.frames).map QFrame.toParsed)))
+      (t.zr x).tc (t.zr x).ts (t.zr x).cc (t.zr x).sc (t.zr x).core := by
+  obtain ⟨⟨a1, a2, a3, a4, a5, a6, a7, a8, a9, _⟩, b1, b2, b3, b4, b5, b6, b7⟩ := hst
+  refine ⟨⟨a1, a2, a3, a4, a5, a6, a7, a8, a9, ?_⟩, b1, b2, ?_, b4, ?_, ?_, ?_⟩
+  · intro o ho; cases ho
+  · show (pnStore s false .app (max s.pnClient.app x.pn)).pnClient = _
+    have hb3 : s.pnClient = t.tc := b3
+    simp [pnStore, PnTab.set, Trk.zr, hb3]
+  · show (afterFrames (pnStore s false .app (max s.pnClient.app x.pn)) p _).clientCids = _
+    have hb5 : s.clientCids = t.cc := b5
+    simp only [afterFrames, hsrv, Bool.false_eq_true, if_false, pnStore, Trk.zr, hb5]
+    have := newCids_eq x.frames
+    unfold ncids at this
+    rw [this, issue_eq]
+  · show (afterFrames (pnStore s false .app (max s.pnClient.app x.pn)) p _).serverCids = _
+    have hb6 : s.serverCids = t.sc := b6
+    simp only [afterFrames, hsrv, Bool.false_eq_true, if_false, pnStore, Trk.zr, hb6]
+  · intro hk
+    obtain ⟨k1, k2, k3, k4, k5, k6, k7⟩ := b7 hk
+    exact ⟨k1, k2, k3, k4, k5, k6, k7⟩
+
+/-- the 0-RTT packets of a datagram, one after the other, in a session that holds the client's Early keys -/
+theorem zr_loop (hl : H.Lawful) (kl : List Keylog.Key) (L : SealLaws Pc) (dcid0 : Bytes) (sel selR : SuiteSel) (csR : Bytes)
+    (hselR : selectSuite csR = some selR) (ch sh ca sa e : Bytes) (ts : Nat) (guessed : Bytes) (qs : List PkH)
+    (hts : ∀ q ∈ qs, q.x.ts = ts) (more : Bytes) (t : Trk) (s : St Tls)
+    (hst : HsSt H dcid0 sel ch sh ca sa t.keyed (noOut s) t.tc t.ts t.cc t.sc t.core)
+    (hek : EarlyKeyed H selR e s)
+    (hok : ∀ (i : Nat) (q : PkH), qs[i]? = some q → ZrShape q.x ∧ (∀ f ∈ q.x.frames, isCryptoQ f = false) ∧
+      WellFormedSeq q.x.frames ∧ PnLenOk ((qs.take i).foldl (fun t q => t.zr q.x) t).tc.app q.x.pn q.x.pnLen ∧
+      maskFn (chachaOf t.core) (quicHp (hashOf H selR.hash) e selR.keyLen)
+        (longOf q.x (protectedPayload L.aeadSeal selR.alg (earlyDec H selR e).client q.x)).sample = some q.mask ∧
+      5 ≤ q.mask.length) :
+    ∃ s', HsSt H dcid0 sel ch sh ca sa (qs.foldl (fun t q => t.zr q.x) t).keyed (noOut s')
+        (qs.foldl (fun t q => t.zr q.x) t).tc (qs.foldl (fun t q => t.zr q.x) t).ts (qs.foldl (fun t q => t.zr q.x) t).cc
+        (qs.foldl (fun t q => t.zr q.x) t).sc (qs.foldl (fun t q => t.zr q.x) t).core ∧
+      EarlyKeyed H selR e s' ∧ s'.out = s.out ++ qs.flatMap (fun q => expectedOf .rtt0 q.x) ∧
+      (Dissect.dissectLoop maskFn (fun x : LoopSt => envOf x.1) (handleTurn (params H Pc kl)) false guessed ts
+        (s, none) ((qs.map (zrWire H Pc L selR e)).flatten ++ more)).1 =
+      (Dissect.dissectLoop maskFn (fun x : LoopSt => envOf x.1) (handleTurn (params H Pc kl)) false guessed ts
+        (s', none) more).1 := by
+  induction qs generalizing t s with
+  | nil => exact ⟨s, hst, hek, by simp, by simp⟩
+  | cons q qs ih =>
+    obtain ⟨z1, z2, z3, z4, z5, z6⟩ := hok 0 q rfl
+    simp only [List.take_zero, List.foldl_nil] at z4
+    have hch : (envOf s).chacha = chachaOf t.core := by
+      have h1 : (envOf (noOut s)).chacha = chachaOf (coreOf (noOut s).tls) := chachaOf_core (noOut s)
+      rw [hst.core] at h1
+      exact h1
+    have hpc : s.pnClient.app = t.tc.app := by
+      have : (noOut s).pnClient = t.tc := hst.pc
+      exact congrArg PnTab.app this
+    obtain ⟨y1, y2⟩ := zr_turn maskFn H Pc hl kl L selR csR hselR e s q z1 hek hst.inv.ver z2 z3 (by rw [hpc]; exact z4)
+      (by rw [hch]; exact z5) z6 guessed ((qs.map (zrWire H Pc L selR e)).flatten ++ more)
+    have hq := hts q (List.mem_cons_self ..)
+    rw [hq] at y1
+    generalize hs1 : afterFrames (pnStore s false .app (max s.pnClient.app q.x.pn))
+      (emit L.aeadSeal selR.alg (earlyDec H selR e).client q.x) ((normalize q.x.frames).map QFrame.toParsed) = s1 at y1 y2
+    have hp0 : (emit L.aeadSeal selR.alg (earlyDec H selR e).client q.x).isServer = false := by
+      have hne : q.x.level ≠ .oneRtt := by rw [z1.level]; decide
+      simp [emit, hne, z1.client]
+    have hst1 := hsSt_after_zr H dcid0 sel ch sh ca sa t s hst q.x _ hp0
+    rw [hs1] at hst1
+    have hek1 : EarlyKeyed H selR e s1 := by
+      subst hs1
+      obtain ⟨k1, k2⟩ := hek
+      exact ⟨by simp only [afterFrames, pnStore]; exact k1, by simp only [afterFrames, pnStore]; exact k2⟩
+    obtain ⟨s2, b1, b2, b3, b4⟩ := ih (fun q' hq' => hts q' (List.mem_cons_of_mem _ hq')) (t.zr q.x) s1 hst1 hek1
+      (by
+        intro i q' hi
+        obtain ⟨w1, w2, w3, w4, w5, w6⟩ := hok (i + 1) q' (by simpa using hi)
+        refine ⟨w1, w2, w3, ?_, w5, w6⟩
+        simpa [List.take_succ_cons, List.foldl_cons] using w4)
+    refine ⟨s2, b1, b2, ?_, ?_⟩
+    · rw [b3, y2]; simp [List.flatMap_cons, List.append_assoc]
+    · simp only [List.map_cons, List.flatten_cons, List.append_assoc, List.foldl_cons]
+      rw [y1, b4]
+
+end Loops
 end TLX.Props.C02Capstone4
